@@ -37,7 +37,7 @@ var propScopeOut = map[string][]string{
 	"C10": {"optimizer", "fuzzer", "lexer", "lexer/util", "parser", "analyzer", "analyzer/ast"},
 	"C11": {"optimizer", "fuzzer", "lexer", "lexer/util", "parser"},
 	"C12": {"optimizer", "fuzzer", "lexer", "lexer/util", "parser", "parser/ast"},
-	"C13": {"optimizer", "fuzzer", "lexer", "lexer/util", "parser", "analyzer", "analyzer/ast", "compiler"},
+	"C13": {"optimizer", "fuzzer", "lexer", "lexer/util", "parser", "analyzer", "analyzer/ast"},
 	"C14": {"optimizer", "fuzzer"},
 	"C15": {"optimizer", "fuzzer", "lexer", "lexer/util"},
 	"C16": {"optimizer", "fuzzer", "lexer", "lexer/util", "parser", "interpreter", "interpreter/value"},
@@ -47,8 +47,22 @@ var propScopeOut = map[string][]string{
 	"C20": {"runtime", "runtime/value", "interpreter", "interpreter/value", "compiler"},
 }
 
+// propScopeKeep: rules that compare two or three components with each other (analyzer table vs runtime tables, VM
+// function vs interpreter twin). Their obligations are anchored at ONE of the compared sites, which says nothing about
+// which side is wrong, so for the listed properties they are never filtered by package.
+var propScopeKeep = map[string][]string{
+	"C03": {"R-members"},
+	"C16": {"R-twin-tables"},
+	"C09": {"R-members"},
+}
+
 // outOfScope reports whether obligation o is anchored in a package that cannot affect property prop.
 func outOfScope(prop string, o Obligation) bool {
+	for _, r := range propScopeKeep[prop] {
+		if r == o.Rule {
+			return false
+		}
+	}
 	pos := o.Pos
 	if !strings.HasPrefix(pos, "homescript/") {
 		return false
